@@ -152,3 +152,32 @@ Theorem C08_hypotheses_satisfiable :
   /\ (exists psi : bits -> R * R, forall s, length s = 2%nat -> psi s <> (0, 0)).
 Proof. exact (conj mixed_hypotheses_satisfiable pure_hypotheses_satisfiable). Qed.
 Print Assumptions C08_hypotheses_satisfiable.
+
+(* ---------------------------------------------------------------------------------------------
+   Link to C02 (QTheory.Rho; proof: QTheory.Links, module L2).  For the density-matrix RBM of the
+   model, C02's diagonal theorem (rho(s,s) = probability(s), under C02's two shape guards) discharges
+   the hypothesis "fst (rho s s) = p s" of C08_sigma_z_unbiased / C08_neighbour_*_unbiased: SigmaZ and
+   NeighbourInteraction (open chain, all c >= 1; periodic, all c) are unbiased for that state with no
+   abstract hypothesis left.  (SigmaX / SigmaY: C08_sigma_xy_unbiased_density_matrix above.) *)
+From QTheory Require Links.
+
+Theorem C08_z_observables_unbiased_density_matrix : forall (am ph : prbm),
+  length (pU am) = length (pd am) -> length (pU ph) = length (pU am) ->
+  forall n, (1 <= n)%nat ->
+  let p := fun s => dm_probability ROps am s 1 in
+  let rho := dm_rho ROps am ph in
+  sum_bits n (fun s => p s * sigma_z ROps false s) = fst (trace_op n rho (mean_site_op pauliZ n)) /\
+  (forall c, (1 <= c)%nat ->
+     sum_bits n (fun s => p s * neighbour ROps false c s) = fst (trace_op n rho (diag_op (zz_open n c)))) /\
+  (forall c,
+     sum_bits n (fun s => p s * neighbour ROps true c s) = fst (trace_op n rho (diag_op (zz_periodic n c)))).
+Proof. exact Links.L2.z_observables_unbiased_density_matrix. Qed.
+Print Assumptions C08_z_observables_unbiased_density_matrix.
+
+(* the fact used: the diagonal of the model's density matrix is real, equals the reported probability, and is > 0 *)
+Theorem C08_density_matrix_diagonal : forall (am ph : prbm),
+  length (pU am) = length (pd am) -> length (pU ph) = length (pU am) ->
+  forall s, fst (dm_rho ROps am ph s s) = dm_probability ROps am s 1 /\
+            snd (dm_rho ROps am ph s s) = 0 /\ 0 < dm_probability ROps am s 1.
+Proof. exact Links.L2.dm_diag_real. Qed.
+Print Assumptions C08_density_matrix_diagonal.
